@@ -31,4 +31,64 @@ theorem released_dir_records_displaced (info : Nat → Pipeline.Info) (server : 
   rw [← h1, ← h2, List.map_map]
   rfl
 
+-- ------------------------------------------------------------------ flights: a block of packets of one direction
+theorem dirSegs_none (info : Nat → Pipeline.Info) (server : MainLoop.Endpoint) (d : Bool) (pkts : List MainLoop.Pkt)
+    (h : ∀ p ∈ pkts, (p.src == server) = !d) : dirSegs info server d pkts = [] := by
+  unfold dirSegs
+  rw [List.filter_eq_nil_iff.mpr (fun p hp => by rw [h p hp]; cases d <;> simp)]
+  rfl
+
+theorem all_dir_of_filter_nil (l : List (Session.Rec × Bool)) (d : Bool)
+    (h : (l.filter fun q => q.2 == !d) = []) : ∀ q ∈ l, q.2 = d := by
+  intro q hq
+  have := List.filter_eq_nil_iff.mp h q hq
+  cases d <;> cases hq2 : q.2 <;> simp_all
+
+/-- a block of packets that all travel in direction `d` and deliver (in order: any cuts, duplicates, any ISN) a stream of
+    whole records, fed to a connection whose reassembler of direction `d` is still in its initial state: exactly these
+    records are released, all tagged `d` -/
+theorem released_block (info : Nat → Pipeline.Info) (server : MainLoop.Endpoint) (R : Reassembly.St × Reassembly.St)
+    (pkts : List MainLoop.Pkt) (d : Bool) (hR : (if d then R.2 else R.1) = St.init)
+    (hdir : ∀ p ∈ pkts, (p.src == server) = d) (isn : Nat) (recs : List Bytes)
+    (hwf : ∀ r ∈ recs, Spec.TlsConnection.WholeRecord r)
+    (hd : InOrder isn recs.flatten ((dirSegs info server d pkts).map Props.C05.wire))
+    (hlen : recs.flatten.length ≤ 2 ^ 31) :
+    (released info server R pkts).map (·.1.raw) = recs ∧ ∀ q ∈ released info server R pkts, q.2 = d := by
+  obtain ⟨hfr, hwhole⟩ := frame_flatten recs hwf
+  have hne : ∀ p ∈ dirSegs info server d pkts, p.data ≠ [] := by
+    obtain ⟨chunks, hcut, hmem⟩ := Lemmas.Delivery.delivers_mem hd
+    intro p hp
+    have := (hmem (Props.C05.wire p)).mp (List.mem_map_of_mem hp)
+    rw [Lemmas.Delivery.segsOf_eq_offs] at this
+    obtain ⟨x, hx, hxe⟩ := List.mem_map.mp this
+    simp only [Props.C05.wire, Prod.mk.injEq] at hxe
+    rw [← hxe.2]
+    exact hcut.1 _ (Lemmas.ReasmSort.offs_bounds _ _ _ hx).2.2
+  have h1 := Props.C05.reassembly_exact_inorder isn recs.flatten (dirSegs info server d pkts) hd hwhole hlen
+  rw [run_eq_outs _ hne, hfr] at h1
+  have h2 := released_filter info server R pkts d
+  rw [hR] at h2
+  have h3 := released_filter info server R pkts (!d)
+  rw [dirSegs_none info server (!d) pkts (by intro p hp; rw [hdir p hp]; simp)] at h3
+  simp only [outs, List.map_eq_nil_iff] at h3
+  have hall : ∀ q ∈ released info server R pkts, q.2 = d := all_dir_of_filter_nil _ d h3
+  refine ⟨?_, hall⟩
+  have hf : (released info server R pkts).filter (fun r => r.2 == d) = released info server R pkts :=
+    List.filter_eq_self.mpr (fun q hq => by simp [hall q hq])
+  rw [hf] at h2
+  rw [← h1, ← h2, List.map_map]
+  rfl
+
+/-- packets of the other direction do not touch a direction's reassembler -/
+theorem reasmFinal_other (info : Nat → Pipeline.Info) (server : MainLoop.Endpoint) (R : Reassembly.St × Reassembly.St)
+    (pkts : List MainLoop.Pkt) (d : Bool) (h : ∀ p ∈ pkts, (p.src == server) = !d) :
+    (if d then (reasmFinal info server R pkts).2 else (reasmFinal info server R pkts).1) = (if d then R.2 else R.1) := by
+  induction pkts generalizing R with
+  | nil => rfl
+  | cons p ps ih =>
+    simp only [reasmFinal]
+    rw [ih _ (fun q hq => h q (by simp [hq]))]
+    have hp := h p (by simp)
+    cases d <;> simp_all [reasmPkt]
+
 end TLX.Lemmas.Capstone2
